@@ -559,3 +559,36 @@ def subexprs(e):
             if isinstance(x, tuple):
                 for y in subexprs(x):
                     yield y
+
+
+def field_of(ptr, fn, module):
+    """(struct display name, field path) of a pointer expression rooted at an argument or a global."""
+    root, off, var = ptr_parts(ptr)
+    tid, sname = 0, None
+    if root[0] == "arg":
+        ty = fn.args[root[1]].ty
+        tid = module.di_struct_for_ir(ty)
+        if tid:
+            sname = ty.rstrip("*").split(".", 1)[1]
+    elif root[0] == "g":
+        g = module.globals.get(root[1])
+        sname = root[1]
+        if g and g.get("di_ty"):
+            tid = g["di_ty"]
+    if not tid or off < 0:
+        return sname, None
+    path, leaf, resid = module.di_field_path(tid, off)
+    s = ""
+    for c in path:
+        if c.startswith("["):
+            s += "[]"
+        else:
+            s += ("." if s else "") + c
+    return sname, s
+
+
+def is_assert_fail_path(p):
+    """Path ends in a call to a noreturn assertion handler."""
+    if p.ret_inst is not None and p.ret_inst.op == "unreachable":
+        return True
+    return False
